@@ -267,6 +267,10 @@ impl<'a, R: Read> ChunkedReader<'a, R> {
             .next()
             .unwrap_or("")
             .trim_end_matches(['\r', '\n']);
+        // chunk-size = 1*HEXDIG (from_str_radix alone would also accept a leading '+')
+        if hex.is_empty() || !hex.bytes().all(|b| b.is_ascii_hexdigit()) {
+            return Err(io::Error::new(ErrorKind::InvalidData, "invalid chunk size"));
+        }
         self.remaining_in_chunk = usize::from_str_radix(hex, 16)
             .map_err(|_| io::Error::new(ErrorKind::InvalidData, "invalid chunk size"))?;
         self.state = if self.remaining_in_chunk == 0 {
